@@ -415,6 +415,48 @@ func ruleLenLimit(w *World, r *RuleResult) {
 		return
 	}
 	d := newDedup(r)
+	isMax := func(t *T) bool { t = stripConv(t); return t.Op == "sel" && t.S == "Length" }
+	// the comparison between a code length (or a count of emitted instructions) and the limit on a path
+	// limitTest returns (found, exceeds): the path knows len ? Length; exceeds = "len > Length holds"
+	limitTest := func(p *Path, isLen func(*T) bool) (found, over, exact bool) {
+		for _, cd := range p.Conds {
+			a := cd.Atom
+			if a.Op != "lt" {
+				continue
+			}
+			switch {
+			case isMax(a.A[0]) && isLen(a.A[1]): // Length < len
+				found, over, exact = true, cd.Val, true
+			case isLen(a.A[0]) && isMax(a.A[1]): // len < Length   (its negation is len >= Length: not exact)
+				found, over, exact = true, !cd.Val, false
+			}
+		}
+		return
+	}
+	// the loop-carried code slice, if the program is built in a loop
+	codeLV := ""
+	for _, p := range paths {
+		if p.End == "ret" && p.Ret[1].Op == "nil" {
+			if code := structField(p.Ret[0], "Code"); code != nil && stripConv(code).Op == "loopvar" {
+				codeLV = stripEpoch(stripConv(code)).Key()
+			}
+		}
+	}
+	anyLen := func(t *T) bool {
+		t = stripConv(t)
+		return t.Op == "len" && (typeName(t.A[0].Ty) == "[]Instruction")
+	}
+	// (a) bounded: either every success return is dominated by len(code) <= Length, or the test sits in the
+	// loop after each append (every back edge that grew the code passed it)
+	inLoop := false
+	for _, p := range paths {
+		if p.End != "backedge" {
+			continue
+		}
+		if f, over, _ := limitTest(p, anyLen); f && !over {
+			inLoop = true
+		}
+	}
 	for _, p := range paths {
 		if p.End != "ret" || p.Ret[1].Op != "nil" {
 			continue
@@ -425,19 +467,28 @@ func ruleLenLimit(w *World, r *RuleResult) {
 		}
 		ck := stripEpoch(code).Key()
 		isLen := func(t *T) bool { t = stripConv(t); return t.Op == "len" && stripEpoch(t.A[0]).Key() == ck }
-		isMax := func(t *T) bool { t = stripConv(t); return t.Op == "sel" && t.S == "Length" }
-		ok := hasCond(p, func(a *T, val bool) bool {
-			// len <= Length : lt(Length,len)=false or le(len,Length)=true
-			if a.Op == "lt" && !val && isMax(a.A[0]) && isLen(a.A[1]) {
-				return true
-			}
-			if a.Op == "le" && val && isLen(a.A[0]) && isMax(a.A[1]) {
-				return true
-			}
-			return false
-		})
-		d.add(ok, fn.Name()+"/len(Code)<=Length", w.Pos(fn.Pos()), "success return dominated by len(code) <= config.Length", "a successful assembly is not dominated by a test len(code) <= config.Length: programs longer than the configured maximum are accepted")
+		f, over, _ := limitTest(p, isLen)
+		ok := (f && !over) || inLoop
+		d.add(ok, fn.Name()+"/len(Code)<=Length", w.Pos(fn.Pos()), "success implies len(code) <= config.Length (tested before the return, or after every append)", "a successful assembly is not dominated by a test len(code) <= config.Length: programs longer than the configured maximum are accepted")
 	}
+	// (b) exact: a program is refused for its length only when it really exceeds the limit
+	for _, p := range paths {
+		if p.End != "ret" || p.Ret[1].Op == "nil" {
+			continue
+		}
+		f, over, exact := limitTest(p, anyLen)
+		if !f || !over {
+			continue
+		}
+		// is the length test the reason for this error return? (it is the last condition of the path)
+		last := p.Conds[len(p.Conds)-1].Atom
+		if last.Op != "lt" || !(isMax(last.A[0]) || isMax(last.A[1])) {
+			continue
+		}
+		pos := w.Pos(p.Conds[len(p.Conds)-1].Pos)
+		d.add(exact, fn.Name()+"/refuses-only-longer", pos, "refused for its length only when len(code) > config.Length", "a program is refused when its length is >= the configured maximum: a program of exactly the maximum length no longer assembles")
+	}
+	_ = codeLV
 	d.flush()
 }
 
@@ -487,6 +538,17 @@ func ruleRetXor(w *World, r *RuleResult) {
 				d.add(true, key, pos, "forwards a callee's (WarriorData, error) pair", "")
 			case e.Op == "nil":
 				d.add(!isZeroWarrior(v), key, pos, "nil error with a real warrior", "returns the empty WarriorData together with a nil error (neither error nor warrior)")
+				if v.Op == "struct" && !isZeroWarrior(v) && fn == Asm(w).Compile {
+					// could every field be its zero value at once?  Then this success is indistinguishable
+					// from the value returned with an error.
+					all := true
+					for _, a := range v.A {
+						if !maybeZero(w, fn, p, a, 0) {
+							all = false
+						}
+					}
+					d.add(!all, key+"/distinct", pos, "a successful result always differs from the zero WarriorData returned with errors", "every field of a successful result can be its zero value at once (for a source without instructions and metadata): the caller gets exactly the value that accompanies an error, neither an error nor a warrior")
+				}
 			default:
 				d.add(isZeroWarrior(v), key, pos, "error with the zero WarriorData", "returns a non-empty WarriorData ("+v.Show()+") together with an error (both error and warrior)")
 			}
@@ -1580,4 +1642,73 @@ func resultUsed(p *Path, i int, res *T) bool {
 		}
 	}
 	return false
+}
+
+// maybeZero: can term t (a field of a returned struct on path p of fn) be the
+// zero value of its type?  Allocations and append results cannot; a
+// loop-carried value can if its entry value or a back-edge value can;
+// anything unknown can.
+func maybeZero(w *World, fn *ssa.Function, p *Path, t *T, depth int) bool {
+	t = stripConv(t)
+	switch t.Op {
+	case "makeslice", "makemap", "new", "alloc", "addr", "closure", "fn":
+		return false
+	case "builtin":
+		if t.S == "append" {
+			return false // append never returns nil when it has something to append; with nothing, it returns its first argument
+		}
+	case "str":
+		return t.S == ""
+	case "c":
+		return t.C == 0
+	case "slice":
+		if len(t.A) > 0 {
+			return maybeZero(w, fn, p, t.A[0], depth+1)
+		}
+	case "loopvar":
+		if depth > 3 {
+			return true
+		}
+		phiIdx, n := -1, 0
+		for _, in := range fn.Blocks[int(t.C)].Instrs {
+			if ph, ok := in.(*ssa.Phi); ok {
+				if ph.Comment == t.S {
+					phiIdx = n
+				}
+				n++
+			}
+		}
+		if phiIdx < 0 {
+			return true
+		}
+		for i := range p.Events {
+			if e := &p.Events[i]; e.Kind == "enterloop" && e.Res.C == t.C && phiIdx < len(e.Args) {
+				if maybeZero(w, fn, p, e.Args[phiIdx], depth+1) {
+					return true
+				}
+			}
+		}
+		paths, err := w.Paths(fn)
+		if err != nil {
+			return true
+		}
+		for _, q := range paths {
+			if q.End != "backedge" {
+				continue
+			}
+			be := q.Events[len(q.Events)-1]
+			if be.Res.C != t.C || phiIdx >= len(be.Args) {
+				continue
+			}
+			a := stripConv(be.Args[phiIdx])
+			if a.Key() == t.Key() {
+				continue // unchanged on this back edge
+			}
+			if maybeZero(w, fn, q, a, depth+1) {
+				return true
+			}
+		}
+		return false
+	}
+	return true
 }
